@@ -104,6 +104,18 @@ CHECKS = {
              "(B<=4, L<=14) of all three variant kinds incl. duplicate rows and invalid lists that must raise.",
         note="Indices are non-negative; insertion coordinates 0..L-1 distinct within an example (coordinate L is ambiguous and not "
              "generated); example indices in range; no conflicting substitutions; at least one position survives."),
+    "C16": dict(
+        technique="property-based testing (Hypothesis): differential against direct slicing of generated genomes / signal arrays, file-vs-memory metamorphic relation, grammar-based MEME file generation",
+        category="exploration", design_ref="DESIGN.md §3 C16",
+        text="Synthetic genomes (FASTA with generated line width, lower-case and N runs), integer signal tracks (bigWig written with "
+             "pyBigWig), 1-3 locus sets (DataFrame / BED) with loci at both chromosome edges, odd/even in/out windows in either order, "
+             "jitter, chroms filter, n_loci cap and count filters: every returned row must be, in round-robin order, the one-hot of the "
+             "upper-cased bases and the raw signal values of the centred windows; loci strictly inside must be kept, crossing ones "
+             "dropped, touching ones either; file-based and in-memory calls must agree. read_meme is run on generated MEME files in all "
+             "layouts (URL line or not, 0-2 blank lines, no/single/multiple final newline, CRLF, trailing blanks, n_motifs) and must "
+             "return every motif in file order with the written probabilities.",
+        note="Signal values are small integers (exact in float32); if no locus survives the function raises (numpy.stack of nothing), "
+             "accepted only when no locus lies strictly inside."),
     "C18": dict(
         technique="property-based testing (Hypothesis) against brute-force Python counting + exhaustive k-mer enumeration",
         category="exploration", design_ref="DESIGN.md §3 C18",
